@@ -59,6 +59,7 @@ class Unit:
     assumptions: list = dataclasses.field(default_factory=list)
     trusted: list = dataclasses.field(default_factory=list)
     harness_crate: str = ""
+    allow_unsafe: bool = False      # harness module needs #[allow(unsafe_code)] (crate must not forbid it)
     harness_path: str = ""          # module path prefix of the harness fns (for --exact), e.g. "base64::verif::vharness"         # if set: cargo-kani runs in this extra crate dir (copied from /verif) instead of a repo crate
 
 
@@ -162,9 +163,12 @@ def inject(unit: Unit, ws: Path) -> dict:
         f = ws / rel
         if not f.exists():
             raise Undecided(f"anchor lost: {rel} does not exist")
-        body = (VERIF / src).read_text()
+        srcs = src if isinstance(src, (list, tuple)) else [src]
+        body = "\n".join((VERIF / x).read_text() for x in srcs)
+        src = "+".join(srcs)
         modname = inj[2] if len(inj) > 2 else "verif"
-        f.write_text(f.read_text() + f"\n\n// ===== appended by /verif ({src}) =====\n#[cfg(kani)]\n#[allow(unsafe_code, dead_code, unused_imports, unused_variables, unused_mut, clippy::all)]\nmod {modname} {{\nuse super::*;\n{body}\n}}\n")
+        unsafe_allow = "unsafe_code, " if unit.allow_unsafe else ""
+        f.write_text(f.read_text() + f"\n\n// ===== appended by /verif ({src}) =====\n#[cfg(kani)]\n#[allow({unsafe_allow}dead_code, unused_imports, unused_variables, unused_mut, unused_macros)]\nmod {modname} {{\nuse super::*;\n{body}\n}}\n")
         record["appended_modules"].append({"file": rel, "source": src, "module": modname})
     # 3. crate-level attributes (cfg_attr(kani) only)
     for rel, attrs in unit.crate_attrs.items():
@@ -200,6 +204,9 @@ def inject(unit: Unit, ws: Path) -> dict:
     if n != 1:
         raise Undecided("workspace Cargo.toml has no members list")
     if unit.patches:
+        for support in ("vmodel-core", "vspec"):
+            if (VERIF / "models" / support).exists():
+                shutil.copytree(VERIF / "models" / support, ws / "verif-models" / support, dirs_exist_ok=True)
         t2 += "\n[patch.crates-io]\n"
         for crate, path in unit.patches.items():
             dst = ws / "verif-models" / crate
